@@ -1,6 +1,6 @@
 (** Model of [hdc/algo/ops/zonal.py: do_mean] (as repaired by the fix: commit: float64
     accumulators) for one time step: pixels in row-major order, each with its zone id.
-    A pixel is [None] when it equals nodata (the accessor turns NaN into nodata first); a zone id
+    A pixel is [None] when it equals nodata or is NaN (the accessor turns NaN into nodata first; the kernel skips NaN as well); a zone id
     is [None] when it equals the zone raster's nodata.  Generic in the carrier.  Executable only. *)
 From HDC Require Import Base.Prelude Base.Ops.
 
